@@ -5,7 +5,8 @@ from vpk_jobdir import replay
 
 KILLFUNCS = ["aio_start", "aio_run"]
 KINDS = {"one": dict(tags=[1], deps={}), "chain2": dict(tags=[1, 2], deps={1: [0]}), "indep2": dict(tags=[1, 2], deps={}),
-         "tok2": dict(tags=[1, 2], deps={})}     # tok2: two independent jobs sharing a counter token of total 1
+         "tok2": dict(tags=[1, 2], deps={}),     # tok2: two independent jobs sharing a counter token of total 1
+         "tok1": dict(tags=[1], deps={})}        # tok1: one job that needs the only unit of a counter token
 
 
 # ------------------------------------------------------------------ scenario builders
@@ -91,6 +92,58 @@ def sc_frozen_orphan(ident, n_spawn, sig="KILL", wait=2.5):
     return dict(id=ident, kind="one", tags=[1], timeout=45, files={}, runs=runs, script=script,
                 meta=dict(family="restart", kind="one", kill={"line": n_spawn}, latch="late", sig=sig, second_kill=None,
                           frozen_orphan=True))
+
+
+def sc_long_orphan(ident, kind, n, wait=7.0, sig="KILL"):
+    """C11: the scheduler dies at its n-th executed line, chosen between Popen and the end of the writing of the pid
+    file (no pid file, or an empty one): the job runs but cannot be adopted.  The experiment is run again and the job
+    keeps running `wait` seconds after the second run has submitted everything: the second run must simply wait
+    for it (the lock of the job is all that protects it), then report DONE and launch the dependents."""
+    sc = sc_restart(ident, kind, {"line": n}, "late", sig)
+    sc["script"] = [e for e in sc["script"] if not (e.get("optional") and e["do"] == {"touch": "latch.all"})]
+    # replace the release of the latch (last entry: when the second run has submitted) by a delayed one
+    sc["script"][-1] = dict(when={"phase": ["S0", 1, "submitted"]}, do={"write": ["noop", ""]})
+    idx = len(sc["script"]) - 1
+    sc["script"].append(dict(when={"after": [idx, wait]}, do={"touch": "latch.all"}))
+    sc["timeout"] = 50
+    sc["meta"]["long_orphan"] = wait
+    return sc
+
+
+def sc_toctou(ident, sig="KILL"):
+    """C11: the job ends exactly while the restarted experiment looks for its process: the second run is held (line
+    tracer) in CommandLineJob.aio_process after pidpath.is_file() answered True and before the file is read; the job is
+    then let go, ends and removes its pid file; the second run resumes."""
+    runs = [dict(sid="S0", slot=0, run=0, xpname="x"),
+            dict(sid="S0", slot=0, run=1, xpname="x", trace_process=True,
+                 pause_at=dict(func="aio_process", startswith="pinfo = json.loads(", until="go"))]
+    script = [dict(when={"t": 0}, do={"start": ["S0", 0]}),
+              dict(when={"log": r"^begin 1 "}, do={"kill": ["S0", 0, sig]}),
+              dict(when={"dead": ["S0", 0]}, do={"start": ["S0", 1]}),
+              dict(when={"log": r"^S0 1 PAUSE aio_process "}, do={"touch": "latch.all"}),
+              dict(when={"all": [{"log": r"^S0 1 PAUSE aio_process "}, {"log": r"^end 1 \d+ ok"}]}, do={"write": ["noop", ""]}),
+              dict(when={"after": [4, 1.5]}, do={"touch": "go"}),
+              dict(when={"t": 30}, do={"touch": "go"}, optional=True)]
+    return dict(id=ident, kind="one", tags=[1], timeout=40, files={}, runs=runs, script=script,
+                meta=dict(family="restart", kind="one", kill={"phase": "running:1"}, latch="late", sig=sig, second_kill=None,
+                          toctou=True))
+
+
+def sc_token_empty_pid(ident, n, thaw=2.0):
+    """C11 with a token: one job needs the only unit of a token; the scheduler dies at its n-th executed line, chosen
+    right after pidpath.open("w") (pid file created, empty), and the job process is frozen before it could take its
+    lock (a slow start).  The experiment is run again; the process is thawed `thaw` seconds after the second run has
+    submitted.  The second run must not sit on the job lock waiting for a pid file nobody will ever write."""
+    runs = [dict(sid="S0", slot=0, run=0, xpname="x", kill=dict(n=n, sig="KILL", funcs=KILLFUNCS, freeze_child=True)),
+            dict(sid="S0", slot=0, run=1, xpname="x")]
+    script = [dict(when={"t": 0}, do={"start": ["S0", 0]}),
+              dict(when={"dead": ["S0", 0]}, do={"start": ["S0", 1]}),
+              dict(when={"phase": ["S0", 1, "submitted"]}, do={"write": ["noop", ""]}),
+              dict(when={"after": [2, thaw]}, do={"signal_log": [r"FROZEN (\d+)", "CONT"]}),
+              dict(when={"t": 25}, do={"signal_log": [r"FROZEN (\d+)", "CONT"]}, optional=True)]
+    return dict(id=ident, kind="tok1", tags=[1], timeout=40, files={"latch.all": ""}, runs=runs, script=script,
+                meta=dict(family="restart", kind="tok1", kill={"line": n}, latch="free", sig="KILL", second_kill=None, token=True,
+                          token_empty_pid=True))
 
 
 def sc_token_restart(ident, sig, phase="running:1", latch="late"):
